@@ -645,11 +645,18 @@ func (c *Context) Cbrt(d, x *Decimal) (Condition, error) {
 	}
 
 	z0.Set(x)
-	res := c.round(d, &z)
+	// z is an approximation of the root, so it is rounded to nearest (as in
+	// Sqrt): a directed rounding mode would turn an error far below one ulp
+	// into a full ulp, e.g. return 0.301 for the cube root of 0.027.
+	rc := c.WithPrecision(c.Precision)
+	rc.Rounding = RoundHalfEven
+	res := rc.round(d, &z)
 	res, err := c.goError(res)
 	d.Negative = neg
 
-	// Set z = d^3 to check for exactness.
+	// Set z = d^3 to check for exactness. d has at most c.Precision digits,
+	// so its cube is exact at three times that precision.
+	nc.Precision = c.Precision * 3
 	ed.Mul(&z, d, d)
 	ed.Mul(&z, &z, d)
 
